@@ -120,6 +120,36 @@ fn alpha_fallbacks() -> NodeAlphabet {
     }
 }
 
+/// The node has notarized a chain through window 0; events around the hand-over into window 1.
+/// Blocks 0..2 are the chain 1 <- 2 <- 3 (delivered as a prefix), then the window-1 blocks.
+fn alpha_handover() -> NodeAlphabet {
+    NodeAlphabet {
+        foreign: vec![
+            cert(CK::Notar, 3, 0, &[1, 2], &[]),
+            cert(CK::Notar, 2, 0, &[1, 2], &[]),
+            cert(CK::Skip, 3, 0, &[1], &[2]),
+            cert(CK::NotarFb, 3, 1, &[1], &[2]),
+            cert(CK::Notar, 4, 0, &[1, 2], &[]),
+            cert(CK::Skip, 4, 0, &[1], &[2]),
+            cert(CK::FastFinal, 3, 0, &[1, 2], &[]),
+        ],
+        blocks: vec![
+            (b(1, 0), GENESIS),
+            (b(2, 0), b(1, 0)),
+            (b(3, 0), b(2, 0)),
+            (b(4, 0), b(3, 0)),
+            (b(4, 1), b(3, 1)),
+            (b(4, 2), b(2, 0)),
+            (b(5, 0), b(4, 0)),
+            (b(3, 1), b(2, 0)),
+        ],
+        invalid: vec![4],
+        first_shreds: vec![4],
+        windows: vec![0, 4],
+        forge: vec![],
+    }
+}
+
 pub fn run(tier: Tier) -> i32 {
     let report = Report::new("C05", tier, "model_checking");
     let x3 = Arc::new(make_epoch(&[10, 45, 45]));
@@ -129,18 +159,33 @@ pub fn run(tier: Tier) -> i32 {
         NodeSys::new("window-boundary-3-4-5", x3.clone(), 0, alpha_boundary(), 0),
         NodeSys::new("slot1-fallbacks-lag2", x3.clone(), 0, alpha_fallbacks(), 2),
     ];
+    {
+        // seed state: blocks of slots 1, 2, 3 arrived in order (the node notarized the chain)
+        let mut hs = NodeSys::new("handover-after-notarizing-window-0", x3.clone(), 0, alpha_handover(), 0);
+        let first_block = hs.alpha.foreign.len() as u16;
+        hs.prefix = vec![first_block, first_block + 1, first_block + 2];
+        systems.push(hs);
+        if tier == Tier::Thorough {
+            let mut hs = NodeSys::new("handover-after-notarizing-window-0-lag1", x3.clone(), 0, alpha_handover(), 1);
+            hs.prefix = vec![first_block, first_block + 1, first_block + 2];
+            systems.push(hs);
+        }
+    }
     if tier == Tier::Thorough {
         systems.push(NodeSys::new("slot1-two-blocks-all-inputs-lag2", x3.clone(), 0, alpha_slot1(), 2));
         systems.push(NodeSys::new("window-boundary-3-4-5-lag1", x3.clone(), 0, alpha_boundary(), 1));
     }
     let depth = tier.pick(6, 9);
-    let per_secs = tier.pick(12, 200);
+    // quick: depth bounds chosen so that every system completes its bound (deterministic coverage)
+    let quick_depth = |name: &str| if name.contains("fallbacks") { 6 } else { 4 };
+    let per_secs = tier.pick(14, 200);
     let mut total = BfsStats::default();
     let mut per = Vec::new();
     let mut samples: Vec<Value> = Vec::new();
     let mut exhaustive_to_depth = true;
     for sys in &systems {
-        let limits = BfsLimits::new(depth, tier.pick(600_000, 30_000_000), per_secs);
+        let d = if tier == Tier::Quick { quick_depth(&sys.name) } else { depth };
+        let limits = BfsLimits::new(d, tier.pick(600_000, 30_000_000), per_secs);
         let st = bfs(sys, &sys.name, &limits, &report);
         println!(
             "  {}: states={} transitions={} depth_completed={} (reached {}) outcomes={} capped={:?}",
